@@ -5,6 +5,7 @@ import PyYetiVerif.Props.C13Grid
 import PyYetiVerif.Props.C13Cord
 import PyYetiVerif.Props.C13DmigX
 import PyYetiVerif.Props.C13Fmt
+import PyYetiVerif.Props.C13Multi
 #print axioms PyYetiVerif.C13.thru_roundtrip
 #print axioms PyYetiVerif.C13.thru_maximal
 #print axioms PyYetiVerif.C13.nasints_layout
@@ -58,3 +59,7 @@ import PyYetiVerif.Props.C13Fmt
 #print axioms PyYetiVerif.C13.nasints_is_template
 #print axioms PyYetiVerif.C13.set_tokens_are_templates
 #print axioms PyYetiVerif.C13.tabled1_is_template
+#print axioms PyYetiVerif.C13.readers_independent
+#print axioms PyYetiVerif.C13.typed_readers_independent
+#print axioms PyYetiVerif.C13.sets_in_file
+#print axioms PyYetiVerif.C13.wtset_is_segment
